@@ -73,6 +73,9 @@ class Interp:
         return [b for b in self.prog.bodies.values() if b.key.startswith(self.reader + '::')]
 
     def _find_advance(self):
+        """the function that advances over a record: it adds to Position::byte an extent computed
+        from (at least two) stored buffer offsets of the reader (record end - record start)"""
+        from mir import data_deps
         out = []
         for b in self._reader_bodies():
             for blk in b.blocks:
@@ -80,7 +83,16 @@ class Interp:
                     if s.k == 'assign' and [p['name'] for p in s.place.proj if p['k'] == 'field'] == ['position', 'byte'] \
                             and s.rv.k == 'bin' and s.rv.j['op'].startswith('Add'):
                         ops = s.rv.ops
-                        if any((not o.is_const) and [p['name'] for p in o.place.proj if p['k'] == 'field'] == ['position', 'byte'] for o in ops):
+                        selfop = [o for o in ops if (not o.is_const) and [p['name'] for p in o.place.proj if p['k'] == 'field'] == ['position', 'byte']]
+                        other = [o for o in ops if o not in selfop]
+                        if not selfop or not other:
+                            continue
+                        fields = set()
+                        for r in data_deps(b, other[0]):
+                            if r[0] == 'arg' and r[1] == 1 and r[-1]:
+                                fields.add(tuple(q[1] for q in r[-1]))
+                        fields = set(f for f in fields if f[0] in ('buf_pos', 'search_pos'))
+                        if len(fields) >= 2:
                             out.append(b)
         return set(x.path for x in out)
 
